@@ -83,6 +83,7 @@ def rnd_cor(rng, n):
 
 class ContMachine(Machine):
     name = "cont"
+    no_return_cap = 20  # seconds of wall time; a run takes milliseconds
     properties = (PROP,)
 
     def generate(self, seed, tier, idx):
@@ -154,6 +155,18 @@ class ContMachine(Machine):
                 nsrc += 1
         for ax in range(naxes):
             ops.append(["read", "cov", ax])
+            ops.append(["read", "inv", ax])
+        if st("scale").random() < 0.12:
+            # units: the same uncertainties at the 1e-5 scale (times in seconds with 10 us errors): nothing in the statement depends on the magnitude
+            f = 1e-5
+            for op in ops:
+                if op[0] == "add_simple":
+                    op[3] = [v * f for v in op[3]] if isinstance(op[3], list) else op[3] * f
+                elif op[0] == "add_matrix":
+                    if op[3] == "cov":
+                        op[4] = (np.asarray(op[4], dtype=float) * f * f).tolist()
+                    else:
+                        op[5] = [v * f for v in op[5]]
         return {"machine": self.name, "seed": seed, "knobs": {"order": "insertion"}, "ops": ops}
 
     def _change(self, rng, kind, n):
